@@ -320,6 +320,20 @@ func newWorker() *worker {
 	must(e.Define("g3", func(a, b, c int64) int64 { return 1 }))
 	must(e.Define("g4", func(a, b, c, d int64) int64 { return 1 }))
 	must(e.Define("gi2", func(a, b interface{}) int64 { return 1 }))
+	must(e.Define("gi1", func(a interface{}) int64 { return 1 }))
+	must(e.Define("gi3", func(a, b, c interface{}) int64 { return 1 }))
+	must(e.Define("gp2", func(p *int64, v int64) int64 {
+		if p != nil {
+			*p = v
+		}
+		return 1
+	}))
+	must(e.Define("gpv1", func(p *int64, r ...int64) int64 {
+		if p != nil {
+			*p = int64(len(r))
+		}
+		return 1
+	}))
 	must(e.Define("gv0", func(r ...int64) int64 { return 1 }))
 	must(e.Define("gv1", func(a int64, r ...int64) int64 { return 1 }))
 	must(e.Define("gv2", func(a, b int64, r ...int64) int64 { return 1 }))
